@@ -103,6 +103,15 @@ impl FencedString {
         }
     }
 
+    /// the index of the character that starts at byte offset `byte_idx` (the number of characters before it)
+    pub(crate) fn char_index_of_byte(&self, byte_idx: usize) -> usize {
+        if self.char_starts.is_empty() {
+            byte_idx
+        } else {
+            self.char_starts.partition_point(|s| *s < byte_idx)
+        }
+    }
+
     pub(crate) fn bytes(&self) -> usize {
         self.buffer.len()
     }
